@@ -5,7 +5,7 @@
 From Coq Require Import List NArith ZArith Bool Lia String.
 From Dec Require Import Bytes Strconv Crc Regex Values Tree Db Parser Interp CasesInterp.
 From Dec.generated Require Import Regexes.
-From Dec.proofs Require Import InterpFacts InterpFacts2 InterpFacts3 FollowCore FollowInv FollowErr FollowFail RuleFacts IndepFacts ParserBalanced.
+From Dec.proofs Require Import InterpFacts InterpFacts2 InterpFacts3 FollowCore FollowInv FollowErr FollowFail RuleFacts IndepFacts ParserBalanced FollowFuel FuelFree VarsFrame.
 Import ListNotations.
 
 Definition enl : string := String (Ascii.ascii_of_nat 10) EmptyString.
@@ -109,3 +109,34 @@ Example e_both_orders :
   store (fst (decode (testU None) 50 e_two_tree e_ctx)) = [Obj [(bs "Id", FStr (bs "lit")); (bs "Status", FInt 64 42)] [] []] /\
   store (fst (decode (testU None) 50 (rev e_two_tree) e_ctx)) = store (fst (decode (testU None) 50 e_two_tree e_ctx)).
 Proof. split; vm_compute; reflexivity. Qed.
+
+(* C16: the program with a counter loop, a condition and a call fits fuel 8
+   (literal bounds, three Go iterations, depth 3), so the model never runs out
+   of fuel on it, for any context, and fuel 50 gives what fuel 8 gives *)
+Example e_program_fits :
+  Forall (fit 8) e_tree /\ cl e_ctx /\
+  snd (decode (testU None) 8 e_tree e_ctx) <> Some EFuel /\
+  decode (testU None) 50 e_tree e_ctx = decode (testU None) 8 e_tree e_ctx.
+Proof.
+  assert (F : Forall (fit 8) e_tree).
+  { unfold fit. apply Forall_forall. intros n Hin. vm_compute in Hin.
+    repeat (destruct Hin as [<-|Hin]; [vm_compute; reflexivity|]). destruct Hin. }
+  assert (C : cl e_ctx) by (unfold cl; vm_compute; discriminate).
+  split; [exact F|]. split; [exact C|]. split.
+  - apply harness_finite_programs_are_decided; assumption.
+  - apply finite_programs_result_is_fuel_independent; [apply testU_fair|exact F|exact C|lia].
+Qed.
+
+(* C19 at program level: the program binds `i` (and the empty names of the
+   fields it does not use); the document and the objects stay bound as they were *)
+Example e_program_keeps_other_names :
+  ~ In (bs "jso") (flat_map binds e_tree) /\ ~ In (bs "obj") (flat_map binds e_tree) /\
+  In (bs "i") (flat_map binds e_tree) /\
+  forall U f c, find_var (vars (fst (decode U f e_tree c))) (bs "jso") = find_var (vars c) (bs "jso").
+Proof.
+  assert (N1 : ~ In (bs "jso") (flat_map binds e_tree)).
+  { intro H. vm_compute in H. repeat (destruct H as [H|H]; [discriminate H|]). exact H. }
+  split; [exact N1|]. split.
+  - intro H. vm_compute in H. repeat (destruct H as [H|H]; [discriminate H|]). exact H.
+  - split; [vm_compute; tauto|]. intros U f c. apply decode_binds_only_its_names. exact N1.
+Qed.
